@@ -1149,6 +1149,29 @@ def check_mailbox(ctx, R, classes):
                         any(x.kind == 'TK' and x.a in W for x in seg[:i])
                     if not consumed:
                         bad_b = evs
+            # (e) the forwarder waits only on a slot it has just found empty: an element that arrived while it was busy
+            # delivering must be picked up without a further notification
+            bad_e, n_w = None, 0
+            # (f) the forwarder never terminates
+            bad_f = None
+            for st, status in paths:
+                evs = st.events
+                if status in ('next', 'return'):
+                    bad_f = evs
+                for i, e in enumerate(evs):
+                    if not _is_cond_wait(e):
+                        continue
+                    n_w += 1
+                    prev_sus = max([j for j in range(i) if evs[j].kind == 'SUS'] or [-1])
+                    if not any(_tested_fields(x) & W for x in evs[prev_sus + 1:i]):
+                        bad_e = evs
+            R.ob('MAILBOX', con, 'wait-only-when-empty', bad_e is None and n_w > 0,
+                 'the forwarding coroutine waits for a notification without having looked at the slot since its last suspension: '
+                 'an element that arrived while it was delivering the previous one stays in the slot until some later arrival',
+                 ctx.where(fn, fn.node.lineno), fmt_path(bad_e) if bad_e else None, n_w)
+            R.ob('MAILBOX', con, 'never-exits', bad_f is None,
+                 'the forwarding coroutine can terminate: elements that arrive afterwards are never delivered',
+                 ctx.where(fn, fn.node.lineno), fmt_path(bad_f) if bad_f else None)
             R.ob('MAILBOX', con, 'predicate-recheck', bad_a is None and n > 0,
                  'condition.wait() is not followed by a re-check of the message slot (%s) before the slot is read: a '
                  'notification that arrives while the coroutine is suspended elsewhere is lost / a spurious wake-up reads an '
@@ -1157,6 +1180,7 @@ def check_mailbox(ctx, R, classes):
             for nname, nfn in notifiers.items():
                 badn, nn = None, 0
                 bare = None
+                direct = None
                 for st, status in ctx.paths(nfn, cls):
                     evs = st.events
                     stores = [i for i, e in enumerate(evs) if e.kind == 'ST' and e.a in W and e.c == 'assign' and not e.x.get('empty')
@@ -1166,6 +1190,10 @@ def check_mailbox(ctx, R, classes):
                     nn += 1
                     if not any(_is_notify(e) for e in evs[stores[0]:]):
                         badn = evs
+                    # the forwarder runs on the node's loop, update() may be called from any thread: the condition (not
+                    # thread-safe) is notified through loop.add_callback, never directly
+                    if any(e.kind == 'CALL' and e.c in ('notify', 'notify_all') for e in evs[stores[0]:]):
+                        direct = evs
                     # (d) the slot wraps the element, so that no element value can look like "empty"
                     for i in stores:
                         e = evs[i]
@@ -1174,6 +1202,10 @@ def check_mailbox(ctx, R, classes):
                 R.ob('MAILBOX', ctx.construct(nfn), 'notify-on-every-store', badn is None and nn > 0,
                      'a path stores a new element into the slot without notifying the forwarding coroutine: it can sleep for '
                      'ever on an occupied slot', ctx.where(nfn, nfn.node.lineno), fmt_path(badn) if badn else None, nn)
+                R.ob('MAILBOX', ctx.construct(nfn), 'notify-via-loop', direct is None,
+                     'the condition is notified directly from update(): when update() runs in another thread than the node\'s loop '
+                     'the forwarding coroutine is not woken (tornado conditions are not thread-safe; use loop.add_callback)',
+                     ctx.where(nfn, nfn.node.lineno), fmt_path(direct) if direct else None)
                 R.ob('MAILBOX', ctx.construct(nfn), 'slot-wraps-element', bare is None,
                      'the bare element is stored in the slot whose emptiness the forwarding coroutine tests: an element equal '
                      'to the empty marker (None / falsy) is indistinguishable from "no element"',
